@@ -6,6 +6,8 @@ import AndaVerif.Proofs.BTreeFlush
 import AndaVerif.Proofs.Prefix
 import AndaVerif.Proofs.BTreeVol
 import AndaVerif.Proofs.BTreeConcLin
+import AndaVerif.Proofs.BTreeSpec
+import AndaVerif.Proofs.BTreePack
 /-
 Property C10 — the B-tree index equals an ordered multimap (theorems over `Model/OMap`,
 `Model/RangeQuery`, `Model/BTree`, `Model/BTreeFlush`; helper lemmas live in `Proofs/`).
@@ -82,6 +84,26 @@ theorem unique_rejects_other (s : State) (hu : s.unique = true) (k : Int) (d : N
     (h : s.map.lookup k = some p) (hd : d ∉ p) : BTree.insert s d k = (s, .errExists) := by
   simp [BTree.insert, h, hu, hd]
 
+/-- Uniqueness under the batch operations: on a unique index an `insert_array` in which *any* value is
+held by another id is refused by the pre-check with the index untouched (no value of the batch is
+applied), and a `batch_update` whose insertions conflict returns the error **before any removal**. -/
+theorem unique_batch_rejected_leaves_no_trace (s : State) (hu : s.unique = true) (d : Nat) :
+    (∀ ks : List Int, ks ≠ [] → ks.any (hasOther s.map d) = true → insertArray s d ks = (s, .errExists))
+    ∧ ∀ old new : List Int,
+        new.eraseDups.filter (fun k => !old.contains k) ≠ [] →
+        (new.eraseDups.filter (fun k => !old.contains k)).any (hasOther s.map d) = true →
+        batchUpdate s d old new = (s, .errExists) := by
+  have h1 : ∀ ks : List Int, ks ≠ [] → ks.any (hasOther s.map d) = true → insertArray s d ks = (s, .errExists) := by
+    intro ks hks hc
+    have : ks.isEmpty = false := by cases ks <;> simp_all
+    simp [insertArray, this, hu, hc]
+  refine ⟨h1, fun old new hne hc => ?_⟩
+  have he : (List.filter (fun k => !old.contains k) new.eraseDups).isEmpty = false := by
+    cases hl : List.filter (fun k => !old.contains k) new.eraseDups with
+    | nil => exact absurd hl hne
+    | cons _ _ => rfl
+  simp only [batchUpdate, he, Bool.false_eq_true, if_false, h1 _ hne hc]
+
 example : (run (init true) [.insert 1 5, .insert 2 5, .insertArray 2 [6, 5], .insert 1 5]).2
     = [.ok true, .errExists, .errExists, .ok false] := by decide
 
@@ -102,6 +124,75 @@ theorem api_contents_refine (u : Bool) (ops : List Op) (hd : ∀ op ∈ ops, Ref
 
 example : (Ref.run (Ref.rinit false) [.insert 1 5, .insert 2 5, .remove 1 5, .get 5, .keys none none]).2
     = [.ok true, .ok true, .removed true, .posting (some [2]), .keys [5]] := by decide
+
+-- ------------------------------------------------------------------------------------------------
+-- the exported specification (for the bridges of C02 / C03 / C05 …)
+-- ------------------------------------------------------------------------------------------------
+
+/-- **`BTreeSpec m`: a B-tree index whose contents are `m` answers every call like the ordered
+multimap `m`.** Point lookup is `m.lookup`, key listing `m.keysFrom` (both definitional in
+`Model/BTree.step`); the boolean / range key selection is the filter of the keys by the query
+denotation; a range scan in either direction with any stateful callback is the walk over the matching
+entries; with the counting callback it is the first / last `max n 1` groups. -/
+structure BTreeSpec (m : OMap) : Prop where
+  wf : WF m
+  rangeKeys : ∀ q : RQ Int, OMap.rangeKeys m q = m.keys.filter q.matches
+  scan : ∀ {σ ρ : Type} (q : RQ Int), q.depth ≤ RQ.maxDepth → ∀ (desc : Bool) (f : Callback σ ρ) (s : σ),
+    OMap.scan m q desc f s = scanSpec m q desc f s
+  scanAsc : ∀ {ρ : Type} (q : RQ Int), q.depth ≤ RQ.maxDepth → ∀ (g : Int → List Nat → List ρ) (n : Nat),
+    OMap.scan m q false (cbStop (some n) g) 0
+      = (((m.filter (fun e => q.matches e.1)).map (fun e => g e.1 e.2)).take (max n 1)).flatten
+  scanDesc : ∀ {ρ : Type} (q : RQ Int), q.depth ≤ RQ.maxDepth → ∀ (g : Int → List Nat → List ρ) (n : Nat),
+    OMap.scan m q true (cbStop (some n) g) 0
+      = (((m.filter (fun e => q.matches e.1)).map (fun e => g e.1 e.2)).drop
+          (((m.filter (fun e => q.matches e.1)).map (fun e => g e.1 e.2)).length - max n 1)).flatten
+  scanAll : ∀ {ρ : Type} (q : RQ Int), q.depth ≤ RQ.maxDepth → ∀ (g : Int → List Nat → List ρ) (desc : Bool),
+    OMap.scan m q desc (cbStop none g) 0 = ((m.filter (fun e => q.matches e.1)).map (fun e => g e.1 e.2)).flatten
+
+theorem btreeSpec_of_WF (m : OMap) (h : WF m) : BTreeSpec m :=
+  { wf := h
+    rangeKeys := range_is_filter m h
+    scan := fun q hq desc f s => scan_eq_walk m h q hq desc f s
+    scanAsc := fun q hq g n => (scan_both_directions m h q hq g n).1
+    scanDesc := fun q hq g n => (scan_both_directions m h q hq g n).2.1
+    scanAll := fun q hq g desc => by
+      cases desc
+      · exact (scan_both_directions m h q hq g 0).2.2.1
+      · exact (scan_both_directions m h q hq g 0).2.2.2 }
+
+/-- Every index reachable through the API (any history, unique or not) satisfies `BTreeSpec`, and
+every API call changes its contents by a sequence of the two multimap calls `OMap.ins` / `OMap.del`
+(`insert_array` / `remove_array` / `batch_update` by one call per value actually applied; queries by
+none). -/
+theorem btree_spec (u : Bool) (ops : List Op) :
+    BTreeSpec (run (init u) ops).1.map
+    ∧ ∀ op, ∃ calls, (step (run (init u) ops).1 op).1.map = applyCalls calls (run (init u) ops).1.map :=
+  ⟨btreeSpec_of_WF _ (api_WF u ops), fun op => step_calls _ op⟩
+
+example : ∃ calls, (step (run (init false) [.insert 1 5]).1 (.batchUpdate 1 [5] [6, 7])).1.map
+    = applyCalls calls (run (init false) [.insert 1 5]).1.map ∧ calls.length = 3 :=
+  ⟨[(true, 6, 1), (true, 7, 1), (false, 5, 1)], by decide, rfl⟩
+
+-- ------------------------------------------------------------------------------------------------
+-- bucket packing (`compact_buckets`)
+-- ------------------------------------------------------------------------------------------------
+open AndaVerif.BTreePack in
+/-- First-fit packing never loses or duplicates a posting, **whatever the size estimator returns**
+and in whatever order the items arrive: the keys of the bins are a permutation of the keys packed;
+and every bin is non-empty and stays below the limit unless it holds a single (oversized) item. With
+duplicate-free keys every key therefore sits in exactly one bin — the `assign` that
+`no_lost_posting_sched` quantifies over. -/
+theorem pack_never_loses_or_duplicates (limit : Nat) (items : List (Int × Nat)) :
+    (keysOf (ffd limit items)).Perm (items.map (·.1))
+    ∧ (∀ b ∈ ffd limit items, BinOK limit b)
+    ∧ ((items.map (·.1)).Nodup → (keysOf (ffd limit items)).Nodup) := by
+  have hp : (keysOf (ffd limit items)).Perm (items.map (·.1)) := by
+    have := pack_perm limit items []
+    simpa [ffd, keysOf] using this
+  exact ⟨hp, pack_ok limit items [] (by simp), fun hn => hp.nodup_iff.2 hn⟩
+
+open AndaVerif.BTreePack in
+example : ffd 64 [(1, 40), (2, 30), (3, 20), (4, 70), (5, 3)] = [(63, [1, 3, 5]), (30, [2]), (70, [4])] := by decide
 
 -- ------------------------------------------------------------------------------------------------
 -- prefix queries (string-keyed index)
